@@ -43,10 +43,10 @@ def _detect_ssc(
 ) -> Tuple[Union[TextIO, Iterator[str]], bool]:
     if isinstance(file, TextIOWrapper) or isinstance(file, TextIO):
         if type(file.name) is str:
-            _, _, suffix = file.name.lower().rpartition(".")
-            if suffix == "ssc":
+            name = file.name.lower()
+            if name.endswith(".ssc"):
                 return (file, True)
-            elif suffix == "sm":
+            elif name.endswith(".sm"):
                 return (file, False)
         # Peeking at the first parameter consumes the stream; remember where
         # the caller left it so that it can be handed back untouched
